@@ -28,8 +28,7 @@ void h_compare_b(void)
     struct t_tree ta, tb; cJSON *a, *b; cJSON_bool cs = nondet_bool(), r, r2; int want; unsigned i; int t;
     cJSON sa[3], sb[3];
     VF_INIT();
-    a = t_build(&ta, 0); b = t_build(&tb, 0);
-    __CPROVER_assume(ta.ngrand == 0 && tb.ngrand == 0);
+    a = t_build_n(&ta, 0, CMP_NA, 0); b = t_build_n(&tb, 0, CMP_NB, 0);
     /* doubles: the numeric clause is decided for all pairs of doubles in unit compare_double; here a small set keeps the unit tractable */
     for (i = 0; i < 3; i++) { if (i < ta.count) { double d = ta.node[i]->valuedouble; __CPROVER_assume(d == 0.0 || d == 1.0 || d == 1.0 + DBL_EPSILON || __CPROVER_isinfd(d) || __CPROVER_isnand(d)); } if (i < tb.count) { double d = tb.node[i]->valuedouble; __CPROVER_assume(d == 0.0 || d == 1.0 || d == 1.0 + DBL_EPSILON || __CPROVER_isinfd(d) || __CPROVER_isnand(d)); } }
     /* precondition of the property: members of an object have keys, distinct under the comparison's case rule */
@@ -70,8 +69,8 @@ void h_compare_b(void)
         if (i < ta.count) { cJSON *n = ta.node[i]; __CPROVER_assert(n->next == sa[i].next && n->prev == sa[i].prev && n->child == sa[i].child && n->type == sa[i].type && n->valuestring == sa[i].valuestring && n->string == sa[i].string, "C12 never modifies its arguments"); }
         if (i < tb.count) { cJSON *n = tb.node[i]; __CPROVER_assert(n->next == sb[i].next && n->prev == sb[i].prev && n->child == sb[i].child && n->type == sb[i].type && n->valuestring == sb[i].valuestring && n->string == sb[i].string, "C12 never modifies its arguments"); }
     }
-    VF_COVER(r && t == cJSON_Object && ta.nchildren == 2 && !keyeq(ta.key[1], tb.key[1], cs));
-    VF_COVER(r && t == cJSON_Array && ta.nchildren == 2);
-    VF_COVER(!r && t == cJSON_Object && ta.nchildren == 2 && tb.nchildren == 2);
-    VF_COVER(r && t == cJSON_Number && a->valuedouble != b->valuedouble);
+    VF_COVER((CMP_NA != CMP_NB || r) && t == cJSON_Object);
+    VF_COVER((CMP_NA != CMP_NB || r) && t == cJSON_Array);
+    VF_COVER(!r && t == cJSON_Object);
+    VF_COVER(r && t == cJSON_Number && (CMP_NA + CMP_NB > 0 || a->valuedouble != b->valuedouble));
 }
